@@ -139,11 +139,21 @@ def size_of(freqs, shifts):
     return float(np.sum(np.abs(arr[:, 0])))
 
 
-def tol_for(sizes, orders):
+ILL = 1e6             # sum|c| of a first-order rule beyond which the linear system counts as numerically singular
+SHIFT_ROUNDING = 1e-10   # process_shifts rounds merged shifts to 10 decimals: error <= 1e-10 * w * sum|c| in an identity
+
+
+def tol_for(sizes, orders, arr=None, freqs=None):
+    """float tolerance of an identity: 1e-9 * prod (sum|c| of the first-order rule)^order + the documented shift rounding"""
     t = TOL
     for s, n in zip(sizes, orders):
         t *= max(1.0, s) ** n
-    return min(t, TOL_CAP)
+    if not math.isfinite(t) or max(sizes) > ILL:
+        return TOL_CAP
+    if arr is not None:
+        wmax = max([1.0] + [abs(float(w)) for f in freqs for w in f])
+        t += SHIFT_ROUNDING * wmax * float(np.sum(np.abs(arr[:, 0])))
+    return t
 
 
 class Ctx:
@@ -238,12 +248,12 @@ def lattice_part(ctx, tier, rng, M):
                 ctx.violate(f"malformed:{tag}", f"generate_shift_rule{(freqs, shifts, r['n'])} returned {arr!r}", replay)
                 continue
             sz = size_of(freqs, shifts)
-            tol = tol_for([sz], [r["n"]])
+            tol = tol_for([sz], [r["n"]], arr, [freqs])
             err, at = numeric_identities(arr, [freqs], [r["n"]])
             ctx.inc("rules_evaluated_numerically")
             rows = lattice_rows(arr[:, 1:], M)
             info = {"tag": tag, "fr": fr, "req": r, "arr": arr, "tol": tol, "warns": warns, "replay": replay, "num_err": err, "num_at": at,
-                    "singular_default": singular_default, "orders": [r["n"]], "freqs": [freqs]}
+                    "singular_default": singular_default, "orders": [r["n"]], "freqs": [freqs], "ill": sz > ILL, "user": bool(r["user"])}
             if not r["user"] and not r["onlat"]:
                 cond = sine_cond(freqs, default_shifts(freqs))
                 info["numerically_singular"] = cond if cond > 1e10 else None
@@ -274,11 +284,12 @@ def lattice_part(ctx, tier, rng, M):
                 if arr is None or arr.ndim != 2 or arr.shape[1] != 3 or not np.all(np.isfinite(arr)):
                     ctx.violate(f"raised:{tag}", f"generate_multi_shift_rule({freqs}, {sh}, {orders}) -> {exc or arr!r}", replay)
                     continue
-                tol = tol_for([size_of(freqs[0], sh[0] if sh else None), size_of(freqs[1], sh[1] if sh else None)], orders)
+                szs = [size_of(freqs[0], sh[0] if sh else None), size_of(freqs[1], sh[1] if sh else None)]
+                tol = tol_for(szs, orders, arr, freqs)
                 err, at = numeric_identities(arr, freqs, orders)
                 rows = lattice_rows(arr[:, 1:], M)
                 info = {"tag": tag, "fr": [fa, fb], "arr": arr, "tol": tol, "warns": warns, "replay": replay, "num_err": err, "num_at": at,
-                        "singular_default": False, "orders": orders, "freqs": freqs, "req": None}
+                        "singular_default": False, "orders": orders, "freqs": freqs, "req": None, "ill": max(szs) > ILL, "user": bool(user)}
                 if rows is None:
                     ctx.inc("offlattice_rules_bridged")
                     judge(ctx, info, err, f"w={at}", exact=False)
@@ -369,9 +380,30 @@ def lattice_part(ctx, tier, rng, M):
     return stats, user_det
 
 
+def misfit_class(info):
+    """request-level class: some parameter has an arithmetic-progression spectrum (R >= 2) that is not f_min * (1..R) and uses the default
+    shifts (or user shifts equal to them)"""
+    sh = info["replay"].get("shifts")
+    fl = info["freqs"]
+    for p, f in enumerate(fl):
+        f = sorted(float(w) for w in f)
+        if len(f) < 2:
+            continue
+        d = np.diff(f)
+        if not np.allclose(d, d[0], rtol=0, atol=1e-9) or abs(f[0] - d[0]) < 1e-9:
+            continue
+        s_p = sh if (sh is None or len(fl) == 1) else sh[p]
+        if s_p is None or np.allclose(sorted(s_p), default_shifts(f), rtol=0, atol=1e-9):
+            return True
+    return False
+
+
 def judge(ctx, info, err, where, exact):
     """raise the property-level violation for a rule whose identities fail"""
     ok = err <= info["tol"]
+    if not ok and info.get("ill") and info.get("user"):
+        ctx.inc("user_shift_rules_numerically_singular_skipped")      # precondition of the statement: the user's shifts must determine a rule
+        return
     if ok:
         ctx.inc("rules_exact")
         if max(info["orders"]) >= 2:
@@ -385,12 +417,18 @@ def judge(ctx, info, err, where, exact):
     # one violation per (class, request without order / float variant): the first failing order is described
     base_tag = info["tag"].replace(":float", "")
     base_tag = ":".join(t for t in base_tag.split(":") if not t.startswith("n="))
-    if info["singular_default"]:
+    if misfit_class(info):
+        # class decided from the REQUEST alone: an arithmetic-progression spectrum that is not f_min * (1..R), with the default shifts
+        key = f"progression-not-multiples-of-fmin:{warned}:{base_tag}"
+        why = "the frequencies form an arithmetic progression (or are just two) but are not f_min*(1..R), shifts are the documented default ones; "
+        if info["singular_default"]:
+            why += "TLC proves (ring determinant = 0) that NO first-order rule with these shifts exists; "
+    elif info["singular_default"]:
         key = f"default-shifts-singular:{warned}:{base_tag}"
         why = "TLC proves (ring determinant = 0) that NO first-order rule with the documented default shifts exists for these frequencies; "
-    elif info.get("numerically_singular"):
+    elif info.get("numerically_singular") or info.get("ill"):
         key = f"default-shifts-singular:{warned}:{base_tag}"
-        why = f"the sine matrix of the default shifts is numerically singular (cond {info['numerically_singular']:.3g}); "
+        why = f"the sine matrix of the default shifts is numerically singular (cond {info.get('numerically_singular') or float('inf'):.3g}); "
     else:
         key = f"identity-fails:{warned}:{base_tag}"
         why = ""
@@ -436,8 +474,10 @@ def numeric_part(ctx, tier, rng):
                 ctx.violate(f"raised:{tag}", f"generate_shift_rule{(freqs, shifts, n)} -> {exc or arr!r}", replay)
                 continue
             err, at = numeric_identities(arr, [freqs], [n])
-            info = {"tag": tag, "fr": freqs, "arr": arr, "tol": tol_for([size_of(freqs, shifts)], [n]), "warns": warns, "replay": replay,
-                    "singular_default": False, "numerically_singular": cond if (shifts is None and cond > 1e10) else None, "orders": [n], "freqs": [freqs]}
+            sz = size_of(freqs, shifts)
+            info = {"tag": tag, "fr": freqs, "arr": arr, "tol": tol_for([sz], [n], arr, [freqs]), "warns": warns, "replay": replay,
+                    "singular_default": False, "numerically_singular": cond if (shifts is None and cond > 1e10) else None, "orders": [n], "freqs": [freqs],
+                    "ill": sz > ILL, "user": shifts is not None}
             ctx.inc("offlattice_rules_bridged")
             ctx.inc(f"bridged_{fam}")
             judge(ctx, info, err, f"w={at}", exact=False)
@@ -453,9 +493,10 @@ def numeric_part(ctx, tier, rng):
             continue
         err, at = numeric_identities(arr, [fa, fb], orders)
         conds = [sine_cond(f, default_shifts(f)) for f in (fa, fb)]
-        info = {"tag": tag, "fr": [fa, fb], "arr": arr, "tol": tol_for([size_of(fa, None), size_of(fb, None)], orders), "warns": warns,
+        szs = [size_of(fa, None), size_of(fb, None)]
+        info = {"tag": tag, "fr": [fa, fb], "arr": arr, "tol": tol_for(szs, orders, arr, [fa, fb]), "warns": warns,
                 "replay": {"frequencies": [fa, fb], "orders": orders}, "singular_default": False,
-                "numerically_singular": max(conds) if max(conds) > 1e10 else None, "orders": orders, "freqs": [fa, fb]}
+                "numerically_singular": max(conds) if max(conds) > 1e10 else None, "orders": orders, "freqs": [fa, fb], "ill": max(szs) > ILL, "user": False}
         ctx.inc("offlattice_rules_bridged")
         judge(ctx, info, err, f"w={at}", exact=False)
 
